@@ -261,6 +261,7 @@ func Deviations() []Dev {
 		"nonbmp-tags":           {Text: " trip:🍕 pizza, k2:v", Tags: []Tag{{"trip", "🍕 pizza"}, {"k2", "v"}}},
 		"nonbmp-before-tags":    {Text: " 🎉 fun, trip:paris, k2:v", Tags: []Tag{{"trip", "paris"}, {"k2", "v"}}},
 		"tag-name-inside-value": {Text: " note:see ref:12, ref:12", Tags: []Tag{{"note", "see ref:12"}, {"ref", "12"}}},
+		"value-recurs":          {Text: " trip:rome, city:rome, ref:7, batch:17", Tags: []Tag{{"trip", "rome"}, {"city", "rome"}, {"ref", "7"}, {"batch", "17"}}},
 	}
 	for _, k := range sortedKeys(hc) {
 		c := hc[k]
@@ -440,6 +441,7 @@ func Deviations() []Dev {
 		"nonbmp-tags":           {Text: " trip:🍕 pizza, k2:v", Tags: []Tag{{"trip", "🍕 pizza"}, {"k2", "v"}}},
 		"nonbmp-before-tags":    {Text: " 🎉 fun, trip:paris, k2:v", Tags: []Tag{{"trip", "paris"}, {"k2", "v"}}},
 		"tag-name-inside-value": {Text: " note:see ref:12, ref:12", Tags: []Tag{{"note", "see ref:12"}, {"ref", "12"}}},
+		"value-recurs":          {Text: " trip:rome, city:rome, ref:7, batch:17", Tags: []Tag{{"trip", "rome"}, {"city", "rome"}, {"ref", "7"}, {"batch", "17"}}},
 	}
 	for _, k := range sortedKeys(pc) {
 		c := pc[k]
